@@ -479,8 +479,25 @@ func (r *recorder) reset() {
 	r.calls = map[int][]string{}
 	r.mu.Unlock()
 }
-func (r *recorder) add(id int, l string) {
+// every call of a paradigm records into a sink of its own, carried by the call's context: when a run
+// fails, eino returns at the first failed task and the tasks still in flight finish on their own
+// goroutines - what they call belongs to THAT call, not to whichever call the harness makes next
+// (thorough tier, seed 1: a node of a failed Transform call was recorded in the Invoke call on the second input)
+type recSinkKey struct{}
+
+func (r *recorder) newCall(ctx context.Context) (context.Context, *recorder) {
+	sink := &recorder{calls: map[int][]string{}}
+	return context.WithValue(ctx, recSinkKey{}, sink), sink
+}
+
+func (r *recorder) add(ctx context.Context, id int, l string) {
+	if sink, ok := ctx.Value(recSinkKey{}).(*recorder); ok {
+		r = sink
+	}
 	r.mu.Lock()
+	if r.calls == nil {
+		r.calls = map[int][]string{}
+	}
 	r.calls[id] = append(r.calls[id], l)
 	r.mu.Unlock()
 }
@@ -557,7 +574,7 @@ func natives[I, O any](sp *NSpec, rec *recorder) (compose.Invoke[I, O, any], com
 
 	if sp.Nat[0] {
 		fi = func(ctx context.Context, in I, _ ...any) (O, error) {
-			rec.add(sp.ID, "I")
+			rec.add(ctx, sp.ID, "I")
 			if sp.Fail != 0 {
 				return zero, errNode
 			}
@@ -570,7 +587,7 @@ func natives[I, O any](sp *NSpec, rec *recorder) (compose.Invoke[I, O, any], com
 	}
 	if sp.Nat[1] {
 		fs = func(ctx context.Context, in I, _ ...any) (*schema.StreamReader[O], error) {
-			rec.add(sp.ID, "S")
+			rec.add(ctx, sp.ID, "S")
 			if sp.Fail == 1 {
 				return nil, errNode
 			}
@@ -583,7 +600,7 @@ func natives[I, O any](sp *NSpec, rec *recorder) (compose.Invoke[I, O, any], com
 	}
 	if sp.Nat[2] {
 		fc = func(ctx context.Context, in *schema.StreamReader[I], _ ...any) (O, error) {
-			rec.add(sp.ID, "C")
+			rec.add(ctx, sp.ID, "C")
 			cs, err := readAll(in)
 			if sp.Fail != 0 {
 				return zero, errNode
@@ -604,7 +621,7 @@ func natives[I, O any](sp *NSpec, rec *recorder) (compose.Invoke[I, O, any], com
 	}
 	if sp.Nat[3] {
 		ft = func(ctx context.Context, in *schema.StreamReader[I], _ ...any) (*schema.StreamReader[O], error) {
-			rec.add(sp.ID, "T")
+			rec.add(ctx, sp.ID, "T")
 			if sp.Fail == 1 {
 				in.Close()
 				return nil, errNode
